@@ -4,7 +4,8 @@
 // code units, fields of a token are separated by '|' (same syntax as ocaml/forms_driver.ml).
 //
 //   <id> B <events>       feed the events to a XalanDocumentBuilder's ContentHandler/LexicalHandler
-//                         (S|qname|an|av|.. E C|chars I|ws M|comment P|target|data), dump the tree:
+//                         (S|qname|an|av|.. A|qname|an|av|atype|.. E C|chars I|ws M|comment P|target|data), dump the tree
+//                         (with A tokens followed by ' # value=index|- ...': getElementById of every attribute value):
 //                         <id> <depth>:<kind>:<getIndex()>:<name>:<value> ...   or   <id> ERR
 //   <id> W <hex xml> [r]  parse with XercesDOMParser ("r": keep entity reference nodes); prints
 //                         <id>/x <raw DOM tokens>  (S|..|E T| D| R|..r M| P| Y|name|entities)
@@ -199,19 +200,36 @@ static void canon(const XalanNode* n, int depth, std::string& out)
     }
 }
 
+// getElementById of every candidate value:  " # <value>=<index of the element>|-  ..."
+static std::string id_observations(const XalanDocument* doc, const std::vector<xstr>& cands)
+{
+    std::string out = " #";
+    for (size_t k = 0; k < cands.size(); ++k) {
+        XalanDOMString v; for (size_t i = 0; i < cands[k].size(); ++i) v.append(1, cands[k][i]);
+        const XalanElement* e = doc->getElementById(v);
+        out += " " + x_to_field(cands[k].c_str(), cands[k].size()) + "=" + (e ? std::to_string((unsigned long) e->getIndex()) : std::string("-"));
+    }
+    return out;
+}
+
+static void add_cand(std::vector<xstr>& cands, const xstr& v)
+{
+    if (std::find(cands.begin(), cands.end(), v) == cands.end()) cands.push_back(v);
+}
+
 // ---------------------------------------------------------------------------------------------
 // mode B: events straight into the document builder
 
 class VAttrs : public xc::Attributes
 {
 public:
-    struct A { xstr uri, local, qname, value; };
+    struct A { xstr uri, local, qname, value, type; };
     std::vector<A> v;
     virtual XMLSize_t getLength() const { return v.size(); }
     virtual const XMLCh* getURI(const XMLSize_t i) const { return i < v.size() ? v[i].uri.c_str() : 0; }
     virtual const XMLCh* getLocalName(const XMLSize_t i) const { return i < v.size() ? v[i].local.c_str() : 0; }
     virtual const XMLCh* getQName(const XMLSize_t i) const { return i < v.size() ? v[i].qname.c_str() : 0; }
-    virtual const XMLCh* getType(const XMLSize_t) const { static const XMLCh t[] = { 'C', 'D', 'A', 'T', 'A', 0 }; return t; }
+    virtual const XMLCh* getType(const XMLSize_t i) const { static const XMLCh t[] = { 'C', 'D', 'A', 'T', 'A', 0 }; return i < v.size() && !v[i].type.empty() ? v[i].type.c_str() : t; }
     virtual const XMLCh* getValue(const XMLSize_t i) const { return i < v.size() ? v[i].value.c_str() : 0; }
     virtual bool getIndex(const XMLCh* const uri, const XMLCh* const local, XMLSize_t& index) const
     { for (size_t i = 0; i < v.size(); ++i) if (v[i].uri == uri && v[i].local == local) { index = i; return true; } return false; }
@@ -236,18 +254,21 @@ static void mode_B(const std::string& id, const std::vector<std::string>& toks, 
     xc::LexicalHandler* lh = b->getLexicalHandler();
     std::vector<std::map<xstr, xstr> > ns(1);
     ns[0][X("xml")] = X("http://www.w3.org/XML/1998/namespace");
-    std::vector<xstr> open;
-    bool err = false;
+    std::vector<xstr> open, cands;
+    bool err = false, typed = false;
     try {
         ch->startDocument();
         for (size_t k = first; k < toks.size(); ++k) {
             std::vector<std::string> f = splitc(toks[k], '|');
             const std::string& tag = f[0];
-            if (tag == "S") {
+            if (tag == "S" || tag == "A") {
                 std::map<xstr, xstr> scope = ns.back();
                 VAttrs at;
-                for (size_t i = 2; i + 1 < f.size(); i += 2) {
+                const size_t stride = tag == "A" ? 3 : 2;
+                if (tag == "A") typed = true;
+                for (size_t i = 2; i + stride - 1 < f.size(); i += stride) {
                     VAttrs::A a; a.qname = field_to_x(f[i]); a.value = field_to_x(f[i + 1]);
+                    if (tag == "A") { a.type = field_to_x(f[i + 2]); add_cand(cands, a.value); }
                     if (a.qname == X("xmlns")) scope[xstr()] = a.value;
                     else if (a.qname.compare(0, 6, X("xmlns:")) == 0) scope[a.qname.substr(6)] = a.value;
                     at.v.push_back(a);
@@ -281,7 +302,7 @@ static void mode_B(const std::string& id, const std::vector<std::string>& toks, 
     catch (const XalanDOMException&) { err = true; }
     catch (...) { err = true; }
     if (err) std::cout << id << " ERR\n";
-    else std::cout << id << " " << dump_doc(b->getDocument()) << "\n";
+    else std::cout << id << " " << dump_doc(b->getDocument()) << (typed ? id_observations(b->getDocument(), cands) : std::string()) << "\n";
     t.destroyDocumentBuilder(b);
 }
 
@@ -327,12 +348,15 @@ static void raw_dom(const xc::DOMNode* n, std::string& out)
 class Recorder : public xc::DefaultHandler
 {
 public:
-    std::string out; bool inDTD; Recorder() : inDTD(false) {}
+    std::string out; bool inDTD; std::vector<xstr> cands; Recorder() : inDTD(false) {}
     void add(const std::string& t) { if (!out.empty()) out += ' '; out += t; }
     virtual void startElement(const XMLCh* const, const XMLCh* const, const XMLCh* const qname, const xc::Attributes& attrs)
     {
-        std::string t = "S|" + x_to_field(qname);
-        for (XMLSize_t i = 0; i < attrs.getLength(); ++i) t += "|" + x_to_field(attrs.getQName(i)) + "|" + x_to_field(attrs.getValue(i));
+        std::string t = "A|" + x_to_field(qname);
+        for (XMLSize_t i = 0; i < attrs.getLength(); ++i) {
+            t += "|" + x_to_field(attrs.getQName(i)) + "|" + x_to_field(attrs.getValue(i)) + "|" + x_to_field(attrs.getType(i));
+            add_cand(cands, xstr(attrs.getValue(i)));
+        }
         add(t);
     }
     virtual void endElement(const XMLCh* const, const XMLCh* const, const XMLCh* const) { add("E"); }
@@ -363,6 +387,18 @@ static xc::SAX2XMLReader* make_reader()
 static void mode_W(const std::string& id, const std::string& xml, bool keepRefs)
 {
     static const XMLCh sysid[] = { 'f', 'i', 'l', 'e', ':', '/', '/', '/', 'v', 'm', 'e', 'm', '/', 'w', '.', 'x', 'm', 'l', 0 };
+    // the SAX2 events (with the declared attribute types); every attribute value is a candidate for getElementById
+    Recorder rec; bool recOk = true;
+    {
+        xc::SAX2XMLReader* r = make_reader();
+        r->setContentHandler(&rec); r->setLexicalHandler(&rec); r->setErrorHandler(&rec);
+        try {
+            xc::MemBufInputSource is((const XMLByte*) xml.data(), xml.size(), sysid, false);
+            r->parse(is);
+        }
+        catch (...) { recOk = false; }
+        delete r;
+    }
     // Xerces DOM + wrapper
     {
         xc::XercesDOMParser parser; Quiet q;
@@ -376,7 +412,7 @@ static void mode_W(const std::string& id, const std::string& xml, bool keepRefs)
             std::cout << id << "/x " << raw << "\n";
             XercesParserLiaison liaison; XercesDOMSupport support(liaison);
             XalanDocument* xd = liaison.createDocument(dom, false, true, true);
-            std::cout << id << "/w " << dump_doc(xd) << "\n";
+            std::cout << id << "/w " << dump_doc(xd) << id_observations(xd, rec.cands) << "\n";
         }
         catch (...) { std::cout << id << "/x ERR\n" << id << "/w ERR\n"; }
     }
@@ -385,21 +421,11 @@ static void mode_W(const std::string& id, const std::string& xml, bool keepRefs)
         XalanTransformer t; t.setWarningStream(0);
         std::istringstream ss(xml); XSLTInputSource in(&ss); in.setSystemId(sysid);
         const XalanParsedSource* ps = 0;
-        if (t.parseSource(in, ps, false) == 0 && ps) std::cout << id << "/n " << dump_doc(ps->getDocument()) << "\n";
+        if (t.parseSource(in, ps, false) == 0 && ps) std::cout << id << "/n " << dump_doc(ps->getDocument()) << id_observations(ps->getDocument(), rec.cands) << "\n";
         else std::cout << id << "/n ERR\n";
     }
-    // the SAX2 events
-    {
-        xc::SAX2XMLReader* r = make_reader(); Recorder rec;
-        r->setContentHandler(&rec); r->setLexicalHandler(&rec); r->setErrorHandler(&rec);
-        try {
-            xc::MemBufInputSource is((const XMLByte*) xml.data(), xml.size(), sysid, false);
-            r->parse(is);
-            std::cout << id << "/s " << rec.out << "\n";
-        }
-        catch (...) { std::cout << id << "/s ERR\n"; }
-        delete r;
-    }
+    if (recOk) std::cout << id << "/s " << rec.out << "\n";
+    else std::cout << id << "/s ERR\n";
 }
 
 // ---------------------------------------------------------------------------------------------
